@@ -23,6 +23,14 @@ theorem F1_vEarliest : Generated.vEarliest = "v0.3.0" := by decide
 /-- F1: the library's released versions are the ones the property/SPEC.md list -/
 theorem F1_released : table.map (·.1) = released := by decide
 
+/-- F2: the versions the library treats as released and usable (the earliest supported one and every later key of
+`validSpecVersions`, i.e. those with a feature predicate) are, as a set, the tags of the "Released versions"
+table of SPEC.md - regenerated from SPEC.md on every run; the two pre-release keys (0.1.0, 0.2.0) are in neither. -/
+theorem F2_released_matches_SPECmd :
+    (∀ t ∈ Generated.specMdReleased, t ∈ Generated.versionTable.map (·.1)) ∧
+    (∀ e ∈ Generated.versionTable, (e.2 ≠ "" ∨ e.1 = Generated.vEarliest) → e.1 ∈ Generated.specMdReleased) ∧
+    Generated.vEarliest ∈ Generated.specMdReleased := by decide
+
 /-- F11: no feature predicate stores the address of a `range` value variable while
 the module's Go version gives such variables per-loop scope (the pinned defect:
 `&d.ContainerEdits` in requiresV040/V050 made every stored pointer see the last device). -/
